@@ -146,8 +146,8 @@ vars == <<i, toks, text, prev, fault, fat, done>>
 Brackets == {"{", "}", "(", ")"}
 \* punctuation that needs no white space around it: "?o." "30." "?a;<p>" are complete tokens followed by the mark
 Tight == {".", ";", ","}
-\* ... except after a prefixed name: "e:i2." would be read as the one name e:i2. followed by what comes next ("e:i2.GRAPH" is a
-\* legal local name).  The case file lists the prefixed-name spellings it uses (key "~pn").
+\* ... except after a prefixed name or a blank-node label: "e:i2." would be read as the one name e:i2. followed by what comes
+\* next ("e:i2.GRAPH" is a legal local name, "_:x._" a legal label).  The case file lists these spellings (key "~pn").
 PNames(txt) == IF "~pn" \in DOMAIN txt THEN {txt["~pn"][k] : k \in 1..Len(txt["~pn"])} ELSE {}
 Seps(a, b) == (IF a = "" THEN {""} ELSE {}) \cup {Aux.seps[k] : k \in 1..Len(Aux.seps)} \cup
               {Aux.comments[k] : k \in 1..Len(Aux.comments)} \cup
